@@ -10,7 +10,9 @@
      not_over_nullable     NOT / <> / NOT IN / NOT BETWEEN (and `b = false`, planned as NOT b) above a leaf on an
                            indexed column that holds a NULL: the complement of an Exact answer contains the NULL rows
      range_bounds_swapped  maybe_range fuses `x <= a AND x > b` into [b, a) and `x < a AND x >= b` into (b, a]
-   It is proved for everything outside the two classes. *)
+     bitmap_inverted_range BitmapIndex::search panics (BTreeMap::range) on a range whose bounds are inverted
+                           (`x >= 7 AND x <= 1`, `x BETWEEN 7 AND 1`, `x > 5 AND x < 5`): no rows instead of the empty set
+   It is proved for everything outside the three classes. *)
 From LanceV Require Import Common.Base Core.Model_Mask Core.Proofs_Mask Index.Model_ExprResult Index.Proofs_ExprResult
   Index.Model_ScalarExpr Index.Proofs_ScalarExpr.
 Local Open Scope N_scope.
@@ -49,7 +51,7 @@ Print Assumptions C19_translation_preserves_meaning.
 (* a B-tree / bitmap index in step with the live rows of the fragments it covers answers every query the
    SargableQueryParser builds exactly *)
 Theorem C19_sargable_search_exact : forall (en : env) (tbl : list rowT) (c : N) (ix : sindex) (q : query),
-  index_ok tbl c ix -> sarg_query_ok q = true ->
+  index_ok tbl c ix -> sarg_query_ok q = true -> not_bitmap_inverted ix q = true ->
   exists t, sarg_search q ix = Ok (SExact t) /\ tm_wf t /\
     forall r, In r tbl -> rid r < two64 -> lmem (rfrag r) (ix_frags ix) = true ->
       tm_contains t (rid r) = qmatch en q (val r c).
@@ -64,6 +66,7 @@ Theorem C19_index_eq_scan : forall (en : env) (info : index_info) (ixs : N -> op
   exact_info info -> fn_definite en -> table_ok info tbl -> indices_ok info ixs tbl ->
   Known_C19_not_over_nullable info tbl p = false ->
   Known_C19_range_bounds_swapped info tbl p = false ->
+  Known_C19_bitmap_inverted_range info ixs p = false ->
   sdepth p < MAX_DEPTH ->
   index_scan en info (exact_search ixs) (exact_cov ixs) tbl p = Ok (full_scan en tbl p).
 Proof. exact exact_index_scan_eq_scan. Qed.
@@ -74,10 +77,11 @@ Theorem C19_index_eq_scan_null_free : forall (en : env) (info : index_info) (ixs
   exact_info info -> fn_definite en -> table_ok info tbl -> indices_ok info ixs tbl ->
   null_free info tbl p = true ->
   Known_C19_range_bounds_swapped info tbl p = false ->
+  Known_C19_bitmap_inverted_range info ixs p = false ->
   sdepth p < MAX_DEPTH ->
   index_scan en info (exact_search ixs) (exact_cov ixs) tbl p = Ok (full_scan en tbl p).
 Proof.
-  intros en info ixs tbl p H1 H2 H3 H4 Hnf H5 H6.
+  intros en info ixs tbl p H1 H2 H3 H4 Hnf H5 H6 H7.
   apply exact_index_scan_eq_scan; try assumption. apply null_free_not_known. exact Hnf.
 Qed.
 Print Assumptions C19_index_eq_scan_null_free.
@@ -87,10 +91,11 @@ Theorem C19_index_eq_scan_negation_free : forall (en : env) (info : index_info) 
   exact_info info -> fn_definite en -> table_ok info tbl -> indices_ok info ixs tbl ->
   negation_free p = true ->
   Known_C19_range_bounds_swapped info tbl p = false ->
+  Known_C19_bitmap_inverted_range info ixs p = false ->
   sdepth p < MAX_DEPTH ->
   index_scan en info (exact_search ixs) (exact_cov ixs) tbl p = Ok (full_scan en tbl p).
 Proof.
-  intros en info ixs tbl p H1 H2 H3 H4 Hnf H5 H6.
+  intros en info ixs tbl p H1 H2 H3 H4 Hnf H5 H6 H7.
   apply exact_index_scan_eq_scan; try assumption. apply negation_free_not_known. exact Hnf.
 Qed.
 Print Assumptions C19_index_eq_scan_negation_free.
@@ -112,8 +117,8 @@ Proof. exact index_scan_eq_scan. Qed.
 Print Assumptions C19_any_truthful_index_eq_scan.
 
 (* an index built over the rows of any set of fragments satisfies the hypothesis [index_ok] *)
-Theorem C19_built_index_ok : forall (tbl : list rowT) (c : N) (frags : list N),
-  NoDup (map rid tbl) -> (forall r, In r tbl -> rid r < two64) -> index_ok tbl c (build_index c frags tbl).
+Theorem C19_built_index_ok : forall (bitmap : bool) (tbl : list rowT) (c : N) (frags : list N),
+  NoDup (map rid tbl) -> (forall r, In r tbl -> rid r < two64) -> index_ok tbl c (build_index bitmap c frags tbl).
 Proof. exact build_index_ok. Qed.
 Print Assumptions C19_built_index_ok.
 
@@ -123,14 +128,15 @@ Definition bool_col0 : list (N * (bool * list (N * parser))) := [(0, (true, [(0,
 Definition rows_of (vs : list (option Z)) : list rowT :=
   map (fun iv => mk_row (fst iv) 0 [snd iv]) (combine (map N.of_nat (seq 0 (length vs))) vs).
 Definition run (info_l : list (N * (bool * list (N * parser)))) (tbl : list rowT) (p : sexpr) : outcome (list N) :=
-  let ixs := ixs_of tbl [(0, (0, [0]))] in
+  let ixs := ixs_of tbl [(0, (0, [0], true))] in
   index_scan plain_env (info_of info_l) (exact_search ixs) (exact_cov ixs) tbl p.
 
 (* F1: x = [1, 5, NULL], B-tree on x, `x <> 5`: the index path returns rows 0 and 2 (the NULL), a scan row 0 *)
 Theorem C19_not_over_nullable_refuted : exists info tbl p,
   Known_C19_not_over_nullable info tbl p = true /\
   Known_C19_range_bounds_swapped info tbl p = false /\
-  (let ixs := ixs_of tbl [(0, (0, [0]))] in
+  Known_C19_bitmap_inverted_range info (ixs_of tbl [(0, (0, [0], false))]) p = false /\
+  (let ixs := ixs_of tbl [(0, (0, [0], false))] in
    index_scan plain_env info (exact_search ixs) (exact_cov ixs) tbl p = Ok [0; 2]) /\
   full_scan plain_env tbl p = [0].
 Proof.
@@ -143,7 +149,8 @@ Print Assumptions C19_not_over_nullable_refuted.
 Theorem C19_range_bounds_swapped_refuted : exists info tbl p,
   Known_C19_range_bounds_swapped info tbl p = true /\
   Known_C19_not_over_nullable info tbl p = false /\
-  (let ixs := ixs_of tbl [(0, (0, [0]))] in
+  Known_C19_bitmap_inverted_range info (ixs_of tbl [(0, (0, [0], false))]) p = false /\
+  (let ixs := ixs_of tbl [(0, (0, [0], false))] in
    index_scan plain_env info (exact_search ixs) (exact_cov ixs) tbl p = Ok [0]) /\
   full_scan plain_env tbl p = [1].
 Proof.
@@ -152,6 +159,21 @@ Proof.
   vm_compute. repeat split.
 Qed.
 Print Assumptions C19_range_bounds_swapped_refuted.
+
+(* x = [1, 5, NULL, 7], BITMAP index on x, `x >= 7 AND x <= 1`: the index path panics, a scan returns no row *)
+Theorem C19_bitmap_inverted_range_refuted : exists info tbl p,
+  Known_C19_bitmap_inverted_range info (ixs_of tbl [(0, (0, [0], true))]) p = true /\
+  Known_C19_not_over_nullable info tbl p = false /\
+  Known_C19_range_bounds_swapped info tbl p = false /\
+  (let ixs := ixs_of tbl [(0, (0, [0], true))] in
+   index_scan plain_env info (exact_search ixs) (exact_cov ixs) tbl p = Panic) /\
+  full_scan plain_env tbl p = [].
+Proof.
+  exists (info_of int_col0), (rows_of [Some 1%Z; Some 5%Z; None; Some 7%Z]),
+    (XAnd (XCmp OGtEq (TCol 0) (TLit (LVal 7%Z))) (XCmp OLtEq (TCol 0) (TLit (LVal 1%Z)))).
+  vm_compute. repeat split.
+Qed.
+Print Assumptions C19_bitmap_inverted_range_refuted.
 
 (* ---------------------------------------------------------------- tests of the model (not theorems) *)
 (* nullable boolean b = [true, false, NULL]: `b = false` is planned as NOT b *)
@@ -190,13 +212,14 @@ Example ex_plans :
   apply_scalar_indices info (XCmp OEq x (TLit LNull)) = Ok (refine_only (XCmp OEq x (TLit LNull))).
 Proof. vm_compute. repeat split. Qed.
 
-(* exhaustive small-universe sweep of the theorem's statement: every predicate of depth <= 2 over 15 leaves and
+(* exhaustive small-universe sweep of the theorem's statement: every predicate of depth <= 2 over 17 leaves and
    NOT / AND / OR on a table holding NULL, 0, 1, 2, 3 - two fragments, the second one not covered *)
 Definition sweep_leaves : list sexpr :=
   let x := TCol 0 in let v z := TLit (LVal z) in
   [XCmp OEq x (v 1%Z); XCmp ONotEq x (v 1%Z); XCmp OLt x (v 2%Z); XCmp OLtEq x (v 2%Z); XCmp OGt x (v 1%Z); XCmp OGtEq x (v 1%Z);
    XIsNull x; XIsNotNull x; XBetween false x (v 1%Z) (v 2%Z); XBetween true x (v 1%Z) (v 2%Z);
-   XInList false x [v 0%Z; v 2%Z]; XInList true x [v 0%Z; v 2%Z]; XCmp OEq x (TLit LNull); XOther 3; XCmp OLt (TOther 1) (v 1%Z)].
+   XInList false x [v 0%Z; v 2%Z]; XInList true x [v 0%Z; v 2%Z]; XCmp OEq x (TLit LNull); XOther 3; XCmp OLt (TOther 1) (v 1%Z);
+   XBetween false x (v 2%Z) (v 1%Z); XCmp OLt x (v 0%Z)].
 Definition sweep_preds : list sexpr :=
   sweep_leaves ++ map XNot sweep_leaves
   ++ flat_map (fun a => flat_map (fun b => [XAnd a b; XOr a b; XNot (XAnd a b); XNot (XOr a b)]) sweep_leaves) sweep_leaves.
@@ -207,16 +230,17 @@ Definition sweep_env : env :=
   {| other_term := fun k r => match val r 0 with Some z => Some (z - 1)%Z | None => None end;
      other_pred := fun k r => match val r 0 with Some z => Some (z =? 1)%Z | None => None end;
      fn_sem := fun _ _ _ => Some false |}.
-Definition sweep_ok (p : sexpr) : bool :=
+Definition sweep_ok (bm : bool) (p : sexpr) : bool :=
   let info := info_of int_col0 in
-  let ixs := ixs_of sweep_tbl [(0, (0, [0]))] in
+  let ixs := ixs_of sweep_tbl [(0, (0, [0], bm))] in
   Known_C19_not_over_nullable info sweep_tbl p || Known_C19_range_bounds_swapped info sweep_tbl p ||
+  Known_C19_bitmap_inverted_range info ixs p ||
   match index_scan sweep_env info (exact_search ixs) (exact_cov ixs) sweep_tbl p with
   | Ok rows => list_eqb N.eqb rows (full_scan sweep_env sweep_tbl p)
   | _ => false
   end.
-Example ex_sweep : forallb sweep_ok sweep_preds = true /\ length sweep_preds = 930%nat.
-Proof. vm_compute. split; reflexivity. Qed.
+Example ex_sweep : forallb (sweep_ok false) sweep_preds = true /\ forallb (sweep_ok true) sweep_preds = true /\ length sweep_preds = 1190%nat.
+Proof. vm_compute. repeat split. Qed.
 
 (* the hypotheses of C19_index_eq_scan are satisfiable by a non-trivial input (and the conclusion computes) *)
 Example ex_nonvacuous :
@@ -224,8 +248,9 @@ Example ex_nonvacuous :
   let p := XAnd (XOr (XCmp OLt (TCol 0) (TLit (LVal 2%Z))) (XIsNull (TCol 0))) (XOther 3) in
   Known_C19_not_over_nullable info sweep_tbl p = false /\
   Known_C19_range_bounds_swapped info sweep_tbl p = false /\
+  Known_C19_bitmap_inverted_range info (ixs_of sweep_tbl [(0, (0, [0], true))]) p = false /\
   forallb (row_ok info) sweep_tbl = true /\
-  (let ixs := ixs_of sweep_tbl [(0, (0, [0]))] in
+  (let ixs := ixs_of sweep_tbl [(0, (0, [0], true))] in
    index_scan sweep_env info (exact_search ixs) (exact_cov ixs) sweep_tbl p) = Ok (full_scan sweep_env sweep_tbl p) /\
   full_scan sweep_env sweep_tbl p = [2; 4294967296].
 Proof. vm_compute. repeat split. Qed.
